@@ -236,9 +236,12 @@ def parse_index(E, arr, idx, node):
     comps = []     # per old view dim: ('fix', c) | ('dim', off, stride, length)
     d = 0
     new_axes = []
+    order = []     # output dims in order: ('old', od) | ('new',)
     for x in idx:
         if x is None:
-            raise Unsupported("newaxis")
+            order.append(("new",))
+            continue
+        order.append(("old", d))
         n = arr.shape[d]
         if isinstance(x, slice):
             r = clamp_slice(x, n)
@@ -255,9 +258,15 @@ def parse_index(E, arr, idx, node):
         d += 1
     while d < arr.ndim:
         comps.append(("dim", 0, 1, arr.shape[d]))
+        order.append(("old", d))
         d += 1
     shape, newdim = [], {}
-    for od, c in enumerate(comps):
+    for o in order:
+        if o[0] == "new":
+            shape.append(1)            # numpy.newaxis: a dimension of length 1 that no base index depends on
+            continue
+        od = o[1]
+        c = comps[od]
         if c[0] == "dim":
             newdim[od] = len(shape)
             shape.append(c[3])
